@@ -104,6 +104,11 @@ func streamCorpus() []CFrame {
 		fb := byte(t<<4) | spec.DefaultFlags(byte(t))
 		add(fmt.Sprintf("body2.type%d", t), []byte{fb, 2, 0x00, 0x07}, byte(t))
 	}
+	// accepted although a property is foreign to the packet (a subscription
+	// identifier in an acknowledgement): decoders skip it
+	for _, fb := range []byte{0x40, 0x50, 0x62, 0x70} {
+		add(fmt.Sprintf("foreignprop.type%d", fb>>4), []byte{fb, 0x06, 0x00, 0x01, 0x00, 0x02, 0x0b, 0x07}, fb>>4)
+	}
 	// framed, but the content is malformed
 	add("bad.connack.unknownprop", unhex("20050000027e00"), 2)
 	add("bad.publish.bool2", unhex("3006000174020102"), 3)
